@@ -462,6 +462,9 @@ func (w *PassWorld) Done() bool {
 			if len(pc.initGot) != len(pc.srcSent) || len(pc.srcGot) != len(pc.initSent) {
 				return false
 			}
+			if w.prof.BadMetadata && !pc.served {
+				return false // C20: give every open stream the chance to relay its first message
+			}
 		}
 		return true
 	default:
